@@ -652,6 +652,10 @@ impl<T: Read + Write + Seek> PointCloudWriter<'_, T> {
 }
 
 fn update_min<T: PartialOrd>(value: T, min: &mut Option<T>) {
+    // Values without an order like NaN cannot be a limit for other values
+    if value.partial_cmp(&value).is_none() {
+        return;
+    }
     if let Some(current) = min {
         if *current > value {
             *min = Some(value)
@@ -662,6 +666,10 @@ fn update_min<T: PartialOrd>(value: T, min: &mut Option<T>) {
 }
 
 fn update_max<T: PartialOrd>(value: T, min: &mut Option<T>) {
+    // Values without an order like NaN cannot be a limit for other values
+    if value.partial_cmp(&value).is_none() {
+        return;
+    }
     if let Some(current) = min {
         if *current < value {
             *min = Some(value)
